@@ -333,14 +333,16 @@ def main(argv):
     if a.setup:
         ctx = Ctx("setup", "quick", seed)
         try:
+            bad = []
             for d in sorted(os.listdir(os.path.join(HARNESS, "cmd"))):
-                ctx.go_build(d)
+                try:
+                    ctx.go_build(d)
+                except Undecided as e:
+                    bad.append(d)
+                    print("setup: driver %s does not build (its check will report exit 2):\n%s" % (d, str(e)[-600:]))
             p = subprocess.run(["tlc", "-h"], stdout=subprocess.PIPE, stderr=subprocess.STDOUT, text=True)
-            print("setup ok")
+            print("setup ok" + (" (except %s)" % bad if bad else ""))
             return 0
-        except Undecided as e:
-            print("setup failed:", e)
-            return 2
         finally:
             ctx.cleanup()
     pid = a.pid
